@@ -516,20 +516,26 @@ class PacketTransmitter(Elaboratable):
         # Un-retired packet count.
         packets_awaiting_ack = Signal(range(self._buffer_count + 1))
 
-        # If we need to retry sending our packets, we'll need to reset our pending packet count.
-        # Otherwise, we increment and decrement our "to send" counts normally.
-        with m.If(self.retry_required):
-            m.d.ss += packets_to_send.eq(packets_awaiting_ack)
+        # Track how many packets are yet to be retired.
+        packets_awaiting_ack_next = Signal.like(packets_awaiting_ack)
+        m.d.comb += packets_awaiting_ack_next.eq(packets_awaiting_ack)
+        with m.If(enqueue_send & ~retire_packet):
+            m.d.comb += packets_awaiting_ack_next.eq(packets_awaiting_ack + 1)
+        with m.Elif(retire_packet & ~enqueue_send & (packets_awaiting_ack != 0)):
+            m.d.comb += packets_awaiting_ack_next.eq(packets_awaiting_ack - 1)
+        m.d.ss += packets_awaiting_ack.eq(packets_awaiting_ack_next)
+
+        # If we need to retry sending our packets, we'll need to rewind our pending packet count to cover every
+        # un-retired packet. We only do so between two packets (see DISPATCH_PACKET), never under a packet that's
+        # being transmitted. Otherwise, we increment and decrement our "to send" counts normally.
+        rewind_for_retry  = Signal()
+
+        with m.If(rewind_for_retry):
+            m.d.ss += packets_to_send.eq(packets_awaiting_ack_next)
         with m.Elif(enqueue_send & ~dequeue_send):
             m.d.ss += packets_to_send.eq(packets_to_send + 1)
         with m.Elif(dequeue_send & ~enqueue_send):
             m.d.ss += packets_to_send.eq(packets_to_send - 1)
-
-        # Track how many packets are yet to be retired.
-        with m.If(enqueue_send & ~retire_packet):
-            m.d.ss += packets_awaiting_ack.eq(packets_awaiting_ack + 1)
-        with m.Elif(retire_packet & ~enqueue_send & (packets_awaiting_ack != 0)):
-            m.d.ss += packets_awaiting_ack.eq(packets_awaiting_ack - 1)
 
 
         #
@@ -549,8 +555,8 @@ class PacketTransmitter(Elaboratable):
 
         # If we need to retry sending our packets, we'll need to start reading
         # again from the last acknowledged packet; so we'll reset our read pointer.
-        with m.If(self.retry_required):
-            m.d.ss += read_pointer.eq(ack_pointer)
+        with m.If(rewind_for_retry):
+            m.d.ss += read_pointer.eq(ack_pointer + retire_packet)
         with m.Elif(dequeue_send):
             m.d.ss += read_pointer.eq(read_pointer + 1)
 
@@ -592,7 +598,8 @@ class PacketTransmitter(Elaboratable):
         #
         # Packet delivery (link layer -> physical layer)
         #
-        m.submodules.packet_tx = packet_tx = RawPacketTransmitter()
+        # (A packet that's in flight when the link goes down is abandoned.)
+        m.submodules.packet_tx = packet_tx = ResetInserter({"ss": ~self.enable})(RawPacketTransmitter())
         m.d.comb += [
             packet_tx.header     .eq(buffers[read_pointer]),
             packet_tx.data_sink  .stream_eq(self.data_sink),
@@ -600,10 +607,10 @@ class PacketTransmitter(Elaboratable):
         ]
 
 
-        # Keep track of whether a retry has been requested.
+        # Keep track of whether a retry has been requested; and of whether we've yet to rewind to
+        # the oldest un-retired packet for it.
         retry_pending = Signal()
-        with m.If(self.retry_required):
-            m.d.ss += retry_pending.eq(1)
+        rewind_needed = Signal()
 
 
         with m.FSM(domain="ss"):
@@ -612,8 +619,13 @@ class PacketTransmitter(Elaboratable):
             # our local transmitter with the proper data to send them.
             with m.State("DISPATCH_PACKET"):
 
+                # If we've received an LBAD, start over from the oldest packet that's not been acknowledged.
+                with m.If(rewind_needed):
+                    m.d.comb += rewind_for_retry.eq(1)
+                    m.d.ss   += rewind_needed.eq(0)
+
                 # If we have packets to send, pass them to our transmitter.
-                with m.If(self.bringup_complete & (packets_to_send != 0)):
+                with m.Elif(self.bringup_complete & (packets_to_send != 0)):
 
                     with m.If(~retry_pending):
                         # Wait until the packet is sent.
@@ -628,15 +640,16 @@ class PacketTransmitter(Elaboratable):
             with m.State("WAIT_FOR_SEND"):
                 m.d.comb += packet_tx.generate.eq(1)
 
-                # We're done with this packet.
+                # We're done with this packet. (If we received an LBAD in the meantime, we'll rewind
+                # once we're back in our dispatch state.)
                 with m.If(packet_tx.done):
-
-                    # If we received an LBAD in the meantime, our read pointer and counter are already
-                    # set up for retransmission; don't touch them.
-                    with m.If(~retry_pending):
-                        m.d.comb += dequeue_send.eq(1)
+                    m.d.comb += dequeue_send.eq(1)
 
                     # Handle the next packet, or wait for one.
+                    m.next = "DISPATCH_PACKET"
+
+                # If the link goes down, abandon what we were sending.
+                with m.If(~self.enable):
                     m.next = "DISPATCH_PACKET"
 
 
@@ -650,10 +663,27 @@ class PacketTransmitter(Elaboratable):
                 with m.If(packet_tx.done):
                     m.d.comb += dequeue_send.eq(1)
 
+                    # If another LBAD has arrived while we were retransmitting, we'll need to start over.
+                    with m.If(rewind_needed | self.retry_required):
+                        m.next = "DISPATCH_PACKET"
+
                     # If this was the last packet to retransmit, we're done handling this LBAD.
-                    with m.If(packets_to_send == 1):
+                    with m.Elif(packets_to_send == 1):
                         m.d.ss += retry_pending.eq(0)
                         m.next = "DISPATCH_PACKET"
+
+                # If the link goes down, abandon what we were sending.
+                with m.If(~self.enable):
+                    m.next = "DISPATCH_PACKET"
+
+
+        # Each LBAD requires a retry of every un-retired packet. (This comes after our FSM, so an LBAD that
+        # arrives just as a previous retry completes isn't lost.)
+        with m.If(self.retry_required):
+            m.d.ss += [
+                retry_pending  .eq(1),
+                rewind_needed  .eq(1)
+            ]
 
 
         #
@@ -798,6 +828,7 @@ class PacketTransmitter(Elaboratable):
                 write_pointer             .eq(0),
                 ack_pointer               .eq(0),
                 retry_pending             .eq(0),
+                rewind_needed             .eq(0),
             ]
 
 
